@@ -33,6 +33,7 @@ ANCHORS = ["decaylanguage.modeling.decay:ModelDecay.list_structure", "decaylangu
            "decaylanguage.modeling.goofit:GooFitPyChain.make_amplitude", "decaylanguage.modeling.goofit:GooFitChain.spindetails"]
 WORKERS = {"quick": 8, "thorough": 16}
 WATCHDOG = {"quick": 900, "thorough": 3300}
+WTESTS = {"groups": ['list_structure'], "tests": ['tests/test_goofit.py', 'tests/test_convert.py']}
 REQUIRED = {"enum:all-shapes-and-patterns": 1, "enum:permutations>=4": 100, "enum:leaf-not-in-event-raises": 10,
             **{f"structure:{f}{w}": 2 for f, w in A.STRUCTURES}, **{f"lineshape:{k}": 4 for k in A.LS_KINDS}, "topology:two-resonances": 4, "topology:cascade": 4,
             "language:cpp": 10, "language:python": 10, "event:4-permutations": 2, "event:0": 2, "event:1": 2, "event:2": 2, "expanded-by-name": 2,
